@@ -565,10 +565,17 @@ class Interp(Engine):
         self.inline_stack.append(func.key)
         saved = self.cur_frame
         try:
-            return self.run_body(func, fr)
+            res = self.run_body(func, fr)
         finally:
             self.inline_stack.pop()
             self.cur_frame = saved
+        if c is not None and c.ghost_exit is not None and c.options.get("ghost_exit_inlined") and func.key != self.cur_key:
+            # ghost fields of an object are initialised by its constructor's ghost_exit; the same ghost code runs when the
+            # constructor's body is inlined at a call site (ghost code updates ghost state only)
+            v = dict(fr.vars)
+            v["result"] = res
+            c.ghost_exit(self, v, None)
+        return res
 
     def run_body(self, func, fr):
         node = func.node
